@@ -180,8 +180,8 @@ func runC05(e *Engine, r *Report) {
 	r.floor("GD-session", n, 1)
 
 	// ---- the dedup test consults the watermark and the history
-	hasResp := r.need("(*internal/rsm.Session).hasResponded")
-	getResp := r.need("(*internal/rsm.Session).getResponse")
+	hasResp := r.helper("(*internal/rsm.Session).hasResponded")
+	getResp := r.helper("(*internal/rsm.Session).getResponse")
 	if hasResp != nil && getResp != nil {
 		r.check(len(e.SitesIn(upReq, hasResp)) > 0 && len(e.SitesIn(upReq, getResp)) > 0, "DEP-dedup", "UpdateRequired consults hasResponded and getResponse", e.pos(upReq.Pos()),
 			"duplicates are recognised by the watermark and by the recorded responses", "UpdateRequired no longer consults both the watermark and the response history")
